@@ -270,6 +270,21 @@ CLAIMED: dict[str, tuple[str, str, str, str, str]] = {
         "abstract interpretation of desugaring code over symbolic operands (event order check) + membership/must-call rules",
         "DESIGN §5 C05",
     ),
+    "C01": (
+        "other",
+        "Does NOT decide HUGR validity of compiler output. Decides necessary structural clauses: (1) every node class a stage "
+        "can construct has a handler in the next stage (visitor that is not a bare internal-error stub, `_assign` overload, or a "
+        "reviewed carrier node) -- otherwise an accepted program dies with an internal compiler error; (2) pipeline must-calls "
+        "(analysis before block checking, linearity and unitary checks, drops inserted after all bodies are compiled); (3) the "
+        "output partition of a branching block (branch-sum vs regular outputs) is complete, disjoint and agrees with the "
+        "variable sort order, by a 4-row truth table over (copyable, droppable); (4) return variables are prepended to the exit "
+        "row and every predecessor row alike; (5) DFContainer pack/unpack of struct/tuple places, interpreted on 28 symbolic "
+        "place shapes (nesting <= 2, every linear/non-linear leaf mix): only leaves bound after a store, pack mirrors unpack in "
+        "order and types, no linear leaf stays bound after packing, re-assignment drops the cached aggregate wire.",
+        "Trusted: ast parser, gsa/absint/pyeval.py; the HUGR builder is modelled as a recorder of (op, inputs, outputs).",
+        "stage-to-stage set inclusion (emitted node classes vs handlers) + truth table + abstract interpretation of place wiring",
+        "DESIGN §5 C01",
+    ),
 }
 
 NOT_APPLICABLE: dict[str, str] = {
